@@ -31,12 +31,19 @@ def hashseed_for(base, group):
     return str((base * 7919 + group * 104729 + 12345) % 4294967295)
 
 
+ENV_SWITCHES = ("EPSILON", "NUMERIC_PRECISION", "PYTHONOPTIMIZE")
+
+
 def group_env(g, ngroups):
-    """environment configuration of a worker group: the last group runs with the library's documented environment
+    """environment configuration of a worker group: the last but one runs under python -O; the last group runs with the library's documented environment
     switches set explicitly to their default values (they are read at import time, so only a fresh interpreter sees
     them); behaviour must not depend on whether they are set"""
     if ngroups > 1 and g == ngroups - 1:
         return {"EPSILON": "0.0001", "NUMERIC_PRECISION": "4"}
+    if ngroups > 2 and g == ngroups - 2:
+        # the interpreter's optimisation switch (python -O): assert statements are compiled away - a library whose
+        # behaviour lives inside an assert changes; the harness itself uses no assert for anything it decides
+        return {"PYTHONOPTIMIZE": "1"}
     return {}
 
 
@@ -91,7 +98,7 @@ def cmd_group(a):
         r["shrink_execs"] = used
         r["shrink_s"] = round(time.time() - t0, 2)
         r["pythonhashseed"] = os.environ.get("PYTHONHASHSEED")
-        r["env"] = {k: os.environ[k] for k in ("EPSILON", "NUMERIC_PRECISION") if k in os.environ}
+        r["env"] = {k: os.environ[k] for k in ENV_SWITCHES if k in os.environ}
         r["count_in_group"] = agg["probes"].get("violations:" + v["kind"], 1)
         shrunk.append(r)
     agg["shrunk"] = shrunk
@@ -289,9 +296,9 @@ def cmd_replay(a):
         rep = json.load(f)
     want = rep.get("pythonhashseed")
     want_env = rep.get("env") or {}
-    have_env = {k: os.environ[k] for k in ("EPSILON", "NUMERIC_PRECISION") if k in os.environ}
+    have_env = {k: os.environ[k] for k in ENV_SWITCHES if k in os.environ}
     if (want is not None and os.environ.get("PYTHONHASHSEED") != str(want)) or have_env != want_env:
-        env = {k: v for k, v in os.environ.items() if k not in ("EPSILON", "NUMERIC_PRECISION")}
+        env = {k: v for k, v in os.environ.items() if k not in ENV_SWITCHES}
         env.update(want_env)
         if want is not None:
             env["PYTHONHASHSEED"] = str(want)
